@@ -31,7 +31,13 @@ const (
 	SeamLock  = "lock"  // in front of Lock
 	SeamRLock = "rlock" // in front of RLock
 	SeamHeld  = "held"  // right after acquiring (descheduled while holding the lock)
+	SeamYield = "yield" // at a statement boundary of a rewritten package (lockstep build with -yield)
 )
+
+// IsLockSeam reports whether a parked call stands at a seam of the lockstep runtime.
+func IsLockSeam(name string) bool {
+	return name == SeamLock || name == SeamRLock || name == SeamHeld || name == SeamYield
+}
 
 type lockWaiter struct {
 	g     string // goroutine name ("" if unnamed)
@@ -54,8 +60,10 @@ type simLock struct {
 // LockRuntime is the simulated-mutex runtime of one run.
 type LockRuntime struct {
 	s *Sim
-	// Park decides whether goroutine g parks at site for kind (SeamLock, SeamRLock, SeamHeld). Set before use.
+	// Park decides whether goroutine g parks at site for kind (SeamLock, SeamRLock, SeamHeld, SeamYield). Set before use.
 	Park func(g, site, kind string) bool
+	// YieldDen: a yield site is active in this run iff fnv(seed, site) % YieldDen == 0; 0 = no yields.
+	YieldDen uint64
 
 	mu      sync.Mutex
 	names   map[uint64]string
@@ -424,3 +432,117 @@ func (rt *LockRuntime) Deadlock() (key, detail string, ok bool) {
 // unlocks, as with real mutexes; the members of a reported deadlock never end,
 // which RunOne expects (the recorded violation is the verdict).
 func (rt *LockRuntime) Shutdown() {}
+
+func fnv64(seed uint64, s string) uint64 {
+	h := uint64(14695981039346656037) ^ (seed * 0x9e3779b97f4a7c15)
+	for i := 0; i < len(s); i++ {
+		h ^= uint64(s[i])
+		h *= 1099511628211
+	}
+	h ^= h >> 29
+	h *= 0xbf58476d1ce4e5b9
+	h ^= h >> 32
+	return h
+}
+
+// Yield implements the shim's runtime interface: a statement boundary of a rewritten
+// package. Most sites are inactive in a given run (swarm: the active subset is a function
+// of the seed), and an inactive site costs one hash of its name.
+func (rt *LockRuntime) Yield(site string) {
+	d := rt.YieldDen
+	if d == 0 || fnv64(rt.s.Seed, site)%d != 0 {
+		return
+	}
+	if rt.s.ShuttingDown() || rt.s.Timed {
+		return
+	}
+	g := rt.Name()
+	if g == "" {
+		return
+	}
+	rt.park(g, site, SeamYield)
+}
+
+// Lockstep bundles what a world needs to run on a lockstep build: the runtime, the per-run
+// knobs (drawn from the tape by NewLockstep, on the driver) and the parking policy.
+type Lockstep struct {
+	RT      *LockRuntime
+	Weight  int // option weight of "let this goroutine go on"
+	HeldDen int // 0 = never park after acquiring; n = at sites with hash(seed, site) % n == 0
+	s       *Sim
+	// Ended reports that the party a goroutine descends from no longer counts (its context has ended):
+	// its goroutines keep honouring the locks but are no longer scheduled by the driver. May be nil.
+	// Called on goroutines of the code under test: it must not draw from the tape.
+	Ended func(root string) bool
+}
+
+// DriverName is the lineage root of whatever the driver goroutine spawns through the code under test.
+const DriverName = "drv"
+
+// NewLockstep creates the runtime of a run and names the calling (driver) goroutine. yields: whether
+// the build has statement yields worth drawing a density for.
+func NewLockstep(s *Sim, yields bool) *Lockstep {
+	t := s.T
+	l := &Lockstep{RT: NewLockRuntime(s), s: s}
+	l.Weight = []int{4, 8, 16}[t.Intn(3)]
+	l.HeldDen = []int{0, 1, 2, 4}[t.Intn(4)]
+	if yields {
+		l.RT.YieldDen = []uint64{0, 0, 64, 16, 4, 1}[t.Intn(6)]
+	}
+	l.RT.Park = l.park
+	l.RT.SetName(DriverName)
+	return l
+}
+
+func (l *Lockstep) park(g, site, kind string) bool {
+	if g == DriverName {
+		return false // the driver itself must never wait for the driver
+	}
+	if l.Ended != nil && l.Ended(RootOf(g)) {
+		return false
+	}
+	if kind == SeamHeld {
+		return l.HeldDen > 0 && HashChoice(l.s.Seed, "held|"+site, l.HeldDen) == 0
+	}
+	return true
+}
+
+// Describe is a line for the event log.
+func (l *Lockstep) Describe() string {
+	return fmt.Sprintf("lockstep: weight=%d held=1/%d yield=1/%d", l.Weight, l.HeldDen, l.RT.YieldDen)
+}
+
+// Options: one "let it go on" option per goroutine standing at a lock / held / yield seam.
+func (l *Lockstep) Options(parked []*Parked) []Option {
+	var opts []Option
+	for _, p := range parked {
+		if IsLockSeam(p.Name) {
+			opts = append(opts, l.s.ReleaseOpt(p, Decision{Kind: "ok"}, l.Weight))
+		}
+	}
+	return opts
+}
+
+// Held: the lineage roots that have a goroutine standing at a seam of the runtime.
+func (l *Lockstep) Held(parked []*Parked) map[string]bool {
+	held := map[string]bool{}
+	for _, p := range parked {
+		if IsLockSeam(p.Name) {
+			held[RootOf(p.Party)] = true
+		}
+	}
+	return held
+}
+
+// Check reports a lock deadlock or a misuse as a violation; true if it did. Driver, at quiescence.
+func (l *Lockstep) Check() bool {
+	if key, detail, ok := l.RT.Deadlock(); ok {
+		l.s.Violate("lock-deadlock", key, "goroutines wait for each other's locks forever: %s", detail)
+		return true
+	}
+	if m, ok := l.RT.Misuse(); ok {
+		l.s.Violate("lock-misuse", "unlock-of-unlocked", "%s", m)
+		return true
+	}
+	return false
+}
